@@ -88,6 +88,8 @@ type Subscriber struct {
 	asyncWG     sync.WaitGroup
 	// bgWG waits for the event distributor and the idle handler cleaner.
 	bgWG sync.WaitGroup
+	// distDone is closed when the event distributor has exited.
+	distDone chan struct{}
 
 	ipniSync *ipnisync.Sync
 
@@ -224,6 +226,7 @@ func NewSubscriber(host host.Host, lsys ipld.LinkSystem, options ...Option) (*Su
 		// the sync returned could be removed before the distributor got to
 		// the buffered event, and miss it.
 		inEvents: make(chan SyncFinished),
+		distDone: make(chan struct{}),
 
 		addEventChan: make(chan chan<- SyncFinished),
 		rmEventChan:  make(chan chan<- SyncFinished),
@@ -396,9 +399,13 @@ func (s *Subscriber) OnSyncFinished() (<-chan SyncFinished, context.CancelFunc) 
 			return
 		}
 		verifhook.Point("listener.cancel", nil)
+		// The distributor runs until the end of Close: as long as it does,
+		// it is told to remove the listener and close its channel. Giving up
+		// as soon as Close has begun would leave the listener registered,
+		// receiving the notifications of syncs that Close is waiting for.
 		select {
 		case s.rmEventChan <- ch:
-		case <-s.closing:
+		case <-s.distDone:
 		}
 		ch = nil
 	}
@@ -685,6 +692,7 @@ func removeIDFromAddrs(peerInfo peer.AddrInfo) (peer.AddrInfo, error) {
 // to all OnSyncFinished channel readers.
 func (s *Subscriber) distributeEvents() {
 	defer s.bgWG.Done()
+	defer close(s.distDone)
 
 	var outEventsChans []chan<- SyncFinished
 
